@@ -34,6 +34,12 @@ LEVEL_TEXT += (
     "handed out as solvers / callbacks (their own parameters are operands "
     "of whoever calls them); 'x op= v' counts as an in-place store when x "
     "is a plain copy of an array operand.")
+LEVEL_TEXT += (
+    " Added in the hunting round (defects found by independent agents "
+    "on the unchanged tree, DESIGN.md 9.4 / 9.6): "
+    "(R6) no result read from uninitialised memory; hidden randomness "
+    "and in-place canonicalisation by external routines; closures that "
+    "do not outlive their call may keep per-call state.")
 LEVEL_NOTE = (
     "Assumes third-party calls (numpy/scipy) have no effects other than "
     "those in the enumerated tables (out=, ufunc.at, put/place/copyto, "
